@@ -286,6 +286,36 @@ func cmdIDSeq(out string) error {
 			w.Write(tr.Ev{"kind": "burst", "start": ms, "ids": all, "mapped": true})
 		}
 	}
+	// long concurrent bursts (only judged for zero and duplicates): 8 goroutines x 800 draws on real cores
+	for round := 0; round < 6; round++ {
+		s := []int32{maxInt32 - 100, -300, 5}[round%3]
+		tars.VerifSetMsgID(s)
+		const G, N = 8, 800
+		res := make([][]int, G)
+		var wg sync.WaitGroup
+		gate := make(chan struct{})
+		for g := 0; g < G; g++ {
+			wg.Add(1)
+			go func(g int) {
+				defer wg.Done()
+				res[g] = make([]int, 0, N)
+				<-gate
+				for i := 0; i < N; i++ {
+					m, _ := mapID(tars.VerifGenRequestID(sp))
+					res[g] = append(res[g], m)
+				}
+			}(g)
+		}
+		close(gate)
+		wg.Wait()
+		var all []int
+		for _, r := range res {
+			all = append(all, r...)
+		}
+		sort.Ints(all)
+		ms, _ := mapID(s)
+		w.Write(tr.Ev{"kind": "bigburst", "start": ms, "ids": all, "mapped": true})
+	}
 	return w.Close()
 }
 
